@@ -24,13 +24,14 @@ import (
 
 func sroaLocals(fset *token.FileSet, info *types.Info, file *ast.File) ([]byte, int) {
 	type cand struct {
-		obj    *types.Var
-		st     *types.Struct
-		typ    ast.Expr // the type expression of the declaration
-		decl   ast.Stmt
-		init   *ast.CompositeLit
-		ok     bool
-		assign []*ast.AssignStmt
+		obj  *types.Var
+		st   *types.Struct
+		typ  ast.Expr // a type expression for the struct, where the declaration spells one
+		decl ast.Stmt // the declaring statement (a var declaration, or the define that introduces it)
+		init *ast.CompositeLit
+		ok   bool
+		// the other candidates this one is copied from / to as a whole: all of them must be split too
+		partners []*types.Var
 	}
 	cands := map[*types.Var]*cand{}
 	keyedOrEmpty := func(cl *ast.CompositeLit) bool {
@@ -50,9 +51,6 @@ func sroaLocals(fset *token.FileSet, info *types.Info, file *ast.File) ([]byte, 
 		if !ok || st.NumFields() == 0 || st.NumFields() > 6 {
 			return nil
 		}
-		if _, isPtr := t.(*types.Pointer); isPtr {
-			return nil
-		}
 		for i := 0; i < st.NumFields(); i++ {
 			if st.Field(i).Embedded() || st.Field(i).Name() == "_" {
 				return nil
@@ -60,7 +58,7 @@ func sroaLocals(fset *token.FileSet, info *types.Info, file *ast.File) ([]byte, 
 		}
 		return st
 	}
-	// statements that sit in a statement list (the declaration is replaced by several statements)
+	// statements that sit in a statement list (a declaration is replaced by several statements)
 	inList := map[ast.Stmt]bool{}
 	ast.Inspect(file, func(n ast.Node) bool {
 		switch x := n.(type) {
@@ -79,32 +77,58 @@ func sroaLocals(fset *token.FileSet, info *types.Info, file *ast.File) ([]byte, 
 		}
 		return true
 	})
+	localVar := func(e ast.Expr) *types.Var {
+		id, ok := e.(*ast.Ident)
+		if !ok {
+			return nil
+		}
+		v, _ := info.Uses[id].(*types.Var)
+		if v == nil {
+			v, _ = info.Defs[id].(*types.Var)
+		}
+		if v == nil || v.IsField() || v.Pkg() == nil || v.Parent() == nil || v.Parent() == v.Pkg().Scope() {
+			return nil
+		}
+		return v
+	}
 	// declarations
 	ast.Inspect(file, func(n ast.Node) bool {
-		if st, isStmt := n.(ast.Stmt); isStmt && !inList[st] {
-			if _, isDecl := n.(*ast.DeclStmt); isDecl {
-				return true
-			}
-			if as, isAs := n.(*ast.AssignStmt); isAs && as.Tok == token.DEFINE {
-				return true
-			}
+		st, isStmt := n.(ast.Stmt)
+		if !isStmt || !inList[st] {
+			return true
 		}
 		switch x := n.(type) {
 		case *ast.AssignStmt:
-			if x.Tok != token.DEFINE || len(x.Lhs) != 1 || len(x.Rhs) != 1 {
+			if x.Tok != token.DEFINE || len(x.Lhs) != len(x.Rhs) {
 				return true
 			}
-			id, ok := x.Lhs[0].(*ast.Ident)
-			cl, ok2 := x.Rhs[0].(*ast.CompositeLit)
-			if !ok || !ok2 || cl.Type == nil || !keyedOrEmpty(cl) {
-				return true
-			}
-			v, ok := info.Defs[id].(*types.Var)
-			if !ok || v.IsField() {
-				return true
-			}
-			if st := plainStruct(v.Type()); st != nil {
-				cands[v] = &cand{obj: v, st: st, typ: cl.Type, decl: x, init: cl, ok: true}
+			for i := range x.Lhs {
+				id, ok := x.Lhs[i].(*ast.Ident)
+				if !ok {
+					continue
+				}
+				v, ok := info.Defs[id].(*types.Var)
+				if !ok || v.IsField() {
+					continue
+				}
+				sst := plainStruct(v.Type())
+				if sst == nil {
+					continue
+				}
+				if _, isPtr := v.Type().(*types.Pointer); isPtr {
+					continue
+				}
+				switch r := x.Rhs[i].(type) {
+				case *ast.CompositeLit:
+					if r.Type != nil && keyedOrEmpty(r) {
+						cands[v] = &cand{obj: v, st: sst, typ: r.Type, decl: x, init: r, ok: true}
+					}
+				case *ast.Ident:
+					// a whole copy of another struct local: decided together with it (below)
+					if w := localVar(r); w != nil && types.Identical(w.Type(), v.Type()) {
+						cands[v] = &cand{obj: v, st: sst, decl: x, ok: true, partners: []*types.Var{w}}
+					}
+				}
 			}
 		case *ast.DeclStmt:
 			gd, ok := x.Decl.(*ast.GenDecl)
@@ -119,11 +143,14 @@ func sroaLocals(fset *token.FileSet, info *types.Info, file *ast.File) ([]byte, 
 			if !ok {
 				return true
 			}
-			st := plainStruct(v.Type())
-			if st == nil {
+			sst := plainStruct(v.Type())
+			if sst == nil {
 				return true
 			}
-			c := &cand{obj: v, st: st, typ: vs.Type, decl: x, ok: true}
+			if _, isPtr := v.Type().(*types.Pointer); isPtr {
+				return true
+			}
+			c := &cand{obj: v, st: sst, typ: vs.Type, decl: x, ok: true}
 			if len(vs.Values) == 1 {
 				cl, isLit := vs.Values[0].(*ast.CompositeLit)
 				if !isLit || cl.Type == nil || !keyedOrEmpty(cl) {
@@ -171,20 +198,70 @@ func sroaLocals(fset *token.FileSet, info *types.Info, file *ast.File) ([]byte, 
 				}
 			}
 		case *ast.AssignStmt:
-			if par.Tok == token.ASSIGN && len(par.Lhs) == 1 && len(par.Rhs) == 1 && par.Lhs[0] == ast.Expr(id) {
-				if cl, isLit := par.Rhs[0].(*ast.CompositeLit); isLit && cl.Type != nil && keyedOrEmpty(cl) && types.Identical(info.TypeOf(cl), v.Type()) {
-					c.assign = append(c.assign, par)
-					return true
+			if len(par.Lhs) == len(par.Rhs) && inList[par] {
+				for i := range par.Lhs {
+					if par.Lhs[i] == ast.Expr(id) && par.Tok == token.ASSIGN {
+						// the whole variable assigned a keyed literal of its type, or another struct local of its type
+						switch r := par.Rhs[i].(type) {
+						case *ast.CompositeLit:
+							if r.Type != nil && keyedOrEmpty(r) && types.Identical(info.TypeOf(r), v.Type()) {
+								return true
+							}
+						case *ast.Ident:
+							if w := localVar(r); w != nil && cands[w] != nil && types.Identical(w.Type(), v.Type()) {
+								c.partners = append(c.partners, w)
+								return true
+							}
+						}
+					}
+					if par.Rhs[i] == ast.Expr(id) {
+						// the whole variable copied into another struct local that is split as well
+						if w := localVar(par.Lhs[i]); w != nil && cands[w] != nil && types.Identical(w.Type(), v.Type()) {
+							c.partners = append(c.partners, w)
+							return true
+						}
+					}
 				}
 			}
 		}
 		c.ok = false
 		return true
 	})
+	// a variable is split only together with everything it is copied from or to
+	for changed := true; changed; {
+		changed = false
+		for _, c := range cands {
+			if !c.ok {
+				continue
+			}
+			for _, w := range c.partners {
+				if pc := cands[w]; pc == nil || !pc.ok {
+					c.ok = false
+					changed = true
+				}
+			}
+		}
+	}
 	n := 0
+	for _, c := range cands {
+		if c.ok {
+			n++
+		}
+	}
+	if n == 0 {
+		return nil, 0
+	}
+	okCand := func(e ast.Expr) *cand {
+		if v := localVar(e); v != nil {
+			if c := cands[v]; c != nil && c.ok {
+				return c
+			}
+		}
+		return nil
+	}
 	fieldVar := func(c *cand, f string) *ast.Ident { return ast.NewIdent("dvS_" + c.obj.Name() + "_" + f) }
-	zeroOf := func(c *cand, f string, val ast.Expr) ast.Expr {
-		cl := &ast.CompositeLit{Type: c.typ}
+	zeroOf := func(typ ast.Expr, f string, val ast.Expr) ast.Expr {
+		cl := &ast.CompositeLit{Type: typ}
 		if val != nil {
 			cl.Elts = []ast.Expr{&ast.KeyValueExpr{Key: ast.NewIdent(f), Value: val}}
 		}
@@ -202,55 +279,28 @@ func sroaLocals(fset *token.FileSet, info *types.Info, file *ast.File) ([]byte, 
 		return out
 	}
 	declOf := map[ast.Stmt]*cand{}
-	assignOf := map[*ast.AssignStmt]*cand{}
 	for _, c := range cands {
 		if !c.ok {
 			continue
 		}
-		n++
-		declOf[c.decl] = c
-		for _, a := range c.assign {
-			assignOf[a] = c
+		switch d := c.decl.(type) {
+		case *ast.DeclStmt:
+			declOf[c.decl] = c
+		case *ast.AssignStmt:
+			// `v := T{...}` on its own: declared field by field with the fields' own types
+			if len(d.Lhs) == 1 && c.init != nil {
+				declOf[c.decl] = c
+			}
 		}
-	}
-	if n == 0 {
-		return nil, 0
 	}
 	astutil.Apply(file, func(cur *astutil.Cursor) bool {
-		switch x := cur.Node().(type) {
-		case *ast.SelectorExpr:
-			if id, ok := x.X.(*ast.Ident); ok {
-				if v, ok := info.Uses[id].(*types.Var); ok {
-					if c := cands[v]; c != nil && c.ok {
-						cur.Replace(fieldVar(c, x.Sel.Name))
-						return false
-					}
-				}
-			}
-		case *ast.AssignStmt:
-			if c := assignOf[x]; c != nil {
-				vals := valuesOf(x.Rhs[0].(*ast.CompositeLit))
-				var lhs, rhs []ast.Expr
-				for i := 0; i < c.st.NumFields(); i++ {
-					f := c.st.Field(i).Name()
-					lhs = append(lhs, fieldVar(c, f))
-					if e, ok := vals[f]; ok {
-						rhs = append(rhs, e)
-					} else {
-						rhs = append(rhs, zeroOf(c, f, nil))
-					}
-				}
-				x.Lhs, x.Rhs = lhs, rhs
-				return true
-			}
-		}
 		if st, ok := cur.Node().(ast.Stmt); ok && cur.Index() >= 0 {
 			if c := declOf[st]; c != nil {
 				vals := valuesOf(c.init)
 				for i := 0; i < c.st.NumFields(); i++ {
 					f := c.st.Field(i).Name()
 					id := fieldVar(c, f)
-					spec := &ast.ValueSpec{Names: []*ast.Ident{id}, Values: []ast.Expr{zeroOf(c, f, vals[f])}}
+					spec := &ast.ValueSpec{Names: []*ast.Ident{id}, Values: []ast.Expr{zeroOf(c.typ, f, vals[f])}}
 					// where the field type can be written with names of this package only, the variable is declared with
 					// it (its zero value, or the given value, is then seen as such and not as a load from a literal)
 					foreign := false
@@ -275,6 +325,66 @@ func sroaLocals(fset *token.FileSet, info *types.Info, file *ast.File) ([]byte, 
 				cur.Delete()
 				return false
 			}
+		}
+		switch x := cur.Node().(type) {
+		case *ast.SelectorExpr:
+			if id, ok := x.X.(*ast.Ident); ok {
+				if c := okCand(id); c != nil {
+					cur.Replace(fieldVar(c, x.Sel.Name))
+					return false
+				}
+			}
+		case *ast.AssignStmt:
+			if len(x.Lhs) != len(x.Rhs) {
+				return true
+			}
+			touched := false
+			var lhs, rhs []ast.Expr
+			var fresh []*ast.Ident
+			for i := range x.Lhs {
+				c := okCand(x.Lhs[i])
+				if c == nil {
+					lhs = append(lhs, x.Lhs[i])
+					rhs = append(rhs, x.Rhs[i])
+					continue
+				}
+				touched = true
+				var vals map[string]ast.Expr
+				var src *cand
+				var ltyp ast.Expr = c.typ
+				switch r := x.Rhs[i].(type) {
+				case *ast.CompositeLit:
+					vals = valuesOf(r)
+					ltyp = r.Type
+				default:
+					src = okCand(r)
+				}
+				for k := 0; k < c.st.NumFields(); k++ {
+					f := c.st.Field(k).Name()
+					fv := fieldVar(c, f)
+					lhs = append(lhs, fv)
+					if x.Tok == token.DEFINE {
+						fresh = append(fresh, fv)
+					}
+					switch {
+					case src != nil:
+						rhs = append(rhs, fieldVar(src, f))
+					case vals[f] != nil:
+						rhs = append(rhs, vals[f])
+					default:
+						rhs = append(rhs, zeroOf(ltyp, f, nil))
+					}
+				}
+			}
+			if touched {
+				x.Lhs, x.Rhs = lhs, rhs
+				if cur.Index() >= 0 {
+					for _, fv := range fresh {
+						cur.InsertAfter(&ast.AssignStmt{Lhs: []ast.Expr{ast.NewIdent("_")}, Tok: token.ASSIGN, Rhs: []ast.Expr{ast.NewIdent(fv.Name)}})
+					}
+				}
+			}
+			return true
 		}
 		return true
 	}, nil)
